@@ -195,7 +195,7 @@ type coll struct {
 }
 
 func unknownColl(format string, a ...interface{}) *coll { return &coll{why: fmt.Sprintf(format, a...)} }
-func (c *coll) known() bool                            { return c != nil && c.set != nil }
+func (c *coll) known() bool                             { return c != nil && c.set != nil }
 
 type sframe struct {
 	fn     *ssa.Function
@@ -1150,7 +1150,6 @@ func isLenCall(c *ssa.Call) bool {
 	bi, ok := c.Call.Value.(*ssa.Builtin)
 	return ok && bi.Name() == "len"
 }
-
 
 // frameOf builds the calling context of fn from its unique chain of call sites up to root.
 func (si *setInterp) frameOf(fn, root *ssa.Function, depth int) (*sframe, bool) {
